@@ -277,7 +277,24 @@ def replay(path):
     w = None
     if 'multiple' in inp:
         w = swap_oracle(sw, inp['bytes'], inp['multiple'])
-    elif 'bytes' in inp and 'pipeline' not in inp:
+    elif 'pipeline' in inp:
+        fdict = {'i': il, 'd': dl, 'f': fl}
+        inv = {'i': 'd', 'd': 'i', 'f': 'f', 's': 's'}
+
+        def runp(bs, p):
+            for o in p:
+                bs = fdict[o[0]](bs) if o[0] != 's' else sw(bs, o[1])
+            return bs
+        p = [tuple(o) for o in inp['pipeline']]
+        r_ = pyexc(runp, inp['bytes'], p)
+        if r_[0] != 'ok':
+            w = f"pipeline {p} on {inp['bytes']} raised {r_[1]}"
+        else:
+            back = pyexc(runp, r_[1], [(inv[o[0]],) + tuple(o[1:]) for o in reversed(p)])
+            w = None if back == ('ok', inp['bytes']) else f"pipeline {p} on {inp['bytes']} is not undone by the inverses in reverse order: {back}"
+    elif 'bytes' in inp:
         w = weave_oracle(il, dl, inp['bytes']) or flip_oracle(fl, inp['bytes'])
+    else:
+        return replay_broken(r, 'C10')
     print("replay:", w or "property holds on this input")
     return 1 if w else 0
